@@ -620,16 +620,26 @@ def run_model_paths(case):
     rev = list(reversed(user_batches))
     # the mock model ignores its params; pmap needs an array to map over
     params = jnp.zeros((1,), jnp.float32) if eb == 'pmap' else None
+    fwd = user_batches
+    if case.get('as_generator'):
+      # a client's batches are an Iterable: a one-shot iterator and a generator
+      # (what padded_batch_client_datasets hands out) are as good as a list
+      fwd, rev = iter(user_batches), (b for b in rev)
+    clients = [(b'fwd', fwd), (b'rev', rev)]
+    if case.get('longer_neighbour'):
+      # a third client in the same call with twice as many batches (on pmap:
+      # in the same block, so the two others are padded with empty steps)
+      clients.insert(case['longer_neighbour'] % 3, (b'twice', user_batches + user_batches))
     if case.get('per_client_params'):
       out = list(evaluator.evaluate_per_client_params(
-          [(b'fwd', user_batches, params), (b'rev', rev, params)]))
+          [(cid, bs, params) for cid, bs in clients]))
     else:
-      out = list(evaluator.evaluate_global_params(
-          params, [(b'fwd', user_batches), (b'rev', rev)]))
+      out = list(evaluator.evaluate_global_params(params, clients))
     # jit and debug keep the input order; pmap may reorder clients
     by_id = dict(out)
-    require(len(out) == 2 and sorted(by_id) == [b'fwd', b'rev'] and
-            (eb == 'pmap' or [cid for cid, _ in out] == [b'fwd', b'rev']),
+    want_ids = [cid for cid, _ in clients]
+    require(len(out) == len(clients) and sorted(by_id) == sorted(want_ids) and
+            (eb == 'pmap' or [cid for cid, _ in out] == want_ids),
             'evaluator:client_ids', f'{[cid for cid, _ in out]}')
     results['evaluator[fwd]'] = by_id[b'fwd']
     results['evaluator[rev]'] = by_id[b'rev']
@@ -854,6 +864,8 @@ def model_case_strategy(draw, tier, force_empty=False):
     elif pick in (1, 2):
       # (takes effect when all batches of the case have one padded size)
       case['evaluator_backend'] = 'pmap'
+    if draw(st.integers(0, 2)) == 0:
+      case['longer_neighbour'] = draw(st.integers(1, 3))
   if draw(st.integers(0, 2)) == 0:
     # position-only metric names, and another model with the same names but
     # other metrics is evaluated on the same batches first
@@ -861,6 +873,17 @@ def model_case_strategy(draw, tier, force_empty=False):
     case['sibling_first'] = True
   case.update(draw(partition_strategy(family, c, t, 10 if tier == 'quick' else 16,
                                       force_empty)))
+  n = len(case['examples'])
+  if (case.get('evaluator_backend') == 'pmap' and not force_empty and n >= 1
+      and draw(st.integers(0, 1)) == 0):
+    # what ClientDataset.batch() produces: full batches of one size, no mask
+    # key (the layout the pmap backend can stack); examples in drawn order
+    size = draw(st.sampled_from([z for z in SIZES if z <= n]))
+    keep = n - n % size
+    case['examples'] = case['examples'][:keep]
+    case['batches'] = [list(range(at, at + size)) for at in range(0, keep, size)]
+    case['mask_key'] = False
+    case['longer_neighbour'] = draw(st.integers(1, 3))
   if not force_empty and draw(st.integers(0, 3)) == 0:
     used = sorted({len(b) for b in case['batches']}) or SIZES
     case['padded_batch'] = {'batch_size': draw(st.sampled_from(used)),
@@ -931,6 +954,8 @@ def eval_labels(case):
     if (case.get('evaluator_backend') == 'pmap' and len({len(b) for b in case['batches']}) <= 1
         and (case['mask_key'] or len({any(r < 0 for r in b) for b in case['batches']}) <= 1)):
       ls.append('evaluator_on_pmap_backend')
+      if case.get('longer_neighbour'):
+        ls.append('pmap_block_with_clients_of_different_length')
     if case.get('padded_batch') and case['examples']:
       ls.append('via:ClientDataset.padded_batch')
     if case['family'] == 'seq':
